@@ -362,4 +362,7 @@ def all_positions(text, cap=400):
     if len(out) > cap:
         step = len(out) / cap
         out = [out[int(i * step)] for i in range(cap)]
+    # positions no text has: past the last line, far past the end of a line
+    n = len(lines)
+    out += [[n, 0], [n + 3, 2], [0, 100000], [n - 1, len(lines[-1]) + 7], [2 ** 31 - 1, 2 ** 31 - 1]]
     return out
